@@ -47,6 +47,7 @@ var (
 	cNotJudged    = simrt.RegisterCounter("probe_functional_mismatch_not_judged")
 	cDupIdx       = simrt.RegisterCounter("probe_device_list_with_duplicate_index")
 	cNotModelled  = simrt.RegisterCounter("probe_block_not_judged_by_device_model")
+	cSubBand      = simrt.RegisterCounter("op_sub_band_configuration")
 	cFreshChanged = simrt.RegisterCounter("probe_fresh_config_differs_after_run")
 	cNotConverged = simrt.RegisterCounter("probe_not_converged_after_faults")
 
@@ -166,6 +167,23 @@ func sleep(d int64) {
 func (w *world) bandOp(r *sim.Rand) {
 	simrt.Count(cBandOps)
 	n := len(w.m.Chans)
+	// typical operator configurations of the 72-channel plans: one sub-band with
+	// its 500 kHz channel, or the 500 kHz channels only
+	if w.m.Kind == spec.PlanUS && r.Intn(5) == 0 {
+		sb := r.Intn(9) // 8 = no 125 kHz channel at all
+		for j := 0; j < n; j++ {
+			on := (sb < 8 && (j/8 == sb || j == 64+sb)) || (sb == 8 && j >= 64 && r.Intn(2) == 0)
+			if on {
+				w.b.EnableUplinkChannelIndex(j)
+			} else {
+				w.b.DisableUplinkChannelIndex(j)
+			}
+			w.m.Chans[j].Enabled = on
+		}
+		simrt.Count(cSubBand)
+		simrt.Trace(evOp, 6, uint64(sb))
+		return
+	}
 	switch k := r.Intn(10); {
 	case k < 3 && w.m.SupportsExtra && n < 30 && len(w.m.CustomIdx()) < 20:
 		f := uint32(860000000 + 100000*r.Intn(200))
